@@ -246,6 +246,13 @@ func genJSONDoc(r *rng) string {
 		default:
 			v = r.pickS("n", "t", "f", "x", "c", "s"+hx([]byte("7")), "i3")
 		}
+		if r.chance(8) {
+			// encoding/json matches keys by Unicode simple case folding: the long s and the
+			// Kelvin sign fold to s and k; look-alikes from other scripts must not match
+			from := r.pickS("s", "S", "k", "K", "e", "i")
+			to := map[string]string{"s": "\u017f", "S": "\u017f", "k": "\u212a", "K": "\u212a", "e": "\u0435", "i": "\u0131"}[from]
+			nm = strings.Replace(nm, from, to, r.pick(1, -1))
+		}
 		ms = append(ms, hexKey(nm)+"="+v)
 	}
 	if r.chance(15) { // duplicate Type
